@@ -10,7 +10,9 @@
 (*   src/uint/div_limb.rs  reciprocal (by its specification), div2by1,     *)
 (*                         div3by2, div_rem_limb_with_reciprocal           *)
 (*   src/uint/div.rs       div_rem (constant-time, 43-139),                *)
-(*                         div_rem_vartime (195-301)                       *)
+(*                         div_rem_vartime (195-301),                      *)
+(*                         rem_wide_vartime (322-417)                      *)
+(*   src/uint/div_limb.rs  rem_limb_with_reciprocal_wide (305-327)         *)
 (* Every operator returns the result and a path record (branch outcomes).  *)
 (***************************************************************************)
 EXTENDS BigNat, Sequences
@@ -134,6 +136,52 @@ DivRemVartime(n, d, ll, yc) ==
       remsh == [i \in 1..yc |-> IF i < yc THEN xs[i] ELSE lp[2]]
       q     == [i \in 1..ll |-> IF i - 1 <= ll - yc THEN xs[i + yc - 1] ELSE Zero]
   IN [q |-> Val(q), r |-> Shr(Val(remsh), shift), path |-> lp[3]]
+
+--------------------------------------------------------------------------
+(* rem_wide_vartime (div.rs:322-417): remainder of the double-width dividend *)
+(* (lo, hi), each of ll words, by a divisor of yc significant words.  The     *)
+(* algorithm of div_rem_vartime runs on a window held in x (initially the     *)
+(* high half): after each quotient digit the window is moved one word up and  *)
+(* the next word of the shifted low half is fed in at the bottom (`extra`     *)
+(* words remain), then xi walks down as in div_rem_vartime.  Single-word      *)
+(* divisors go through rem_limb_with_reciprocal_wide (div_limb.rs:305-327):   *)
+(* the div2by1 chain over the high, then the low half.                        *)
+
+RECURSIVE RWLoop(_, _, _, _, _, _, _, _, _)
+RWLoop(x, xhi, xlo, y, rv, xi, yc, extra, path) ==           \* xi 0-based as in the code; x, xlo, y 1-based sequences
+  LET ll   == Len(x)
+      d3   == Div3by2(xhi, x[xi + 1], x[xi], y[yc], y[yc - 1], rv)
+      sm   == SubMul(x, y, d3.q, xi, yc, 0, <<Zero, Zero>>)
+      ab   == Sbb(xhi, sm[2], sm[3])[2] # Zero
+      x2   == AddBack(sm[1], y, ab, xi, yc, 0, Zero)
+      xhi2 == x2[xi + 1]
+      p2   == Append(path, <<d3.qmaxed, d3.corr, ab, d3.pre, FALSE>>)
+  IN IF extra > 0
+     THEN RWLoop([i \in 1..ll |-> IF i = 1 THEN xlo[extra] ELSE x2[i - 1]], xhi2, xlo, y, rv, xi, yc, extra - 1, p2)   \* x[0] = x_lo.limbs[extra - 1]
+     ELSE IF xi = yc - 1 THEN <<x2, p2>>
+     ELSE RWLoop([x2 EXCEPT ![xi + 1] = Zero], xhi2, xlo, y, rv, xi - 1, yc, 0, p2)
+
+RemWideVartime(lo, hi, d, ll) ==                             \* lo, hi, d sequences of ll words, Val(d) # 0, ll >= 2
+  LET dbits == BitLen(Val(d))
+      yc    == (dbits + W - 1) \div W
+  IN IF yc = 1
+     THEN LET shift == W - BitLen(d[1])
+              dn    == Shl(d[1], shift)
+              rv    == Recip(dn)
+              los   == ShlLimbs(lo, shift)
+              his0  == ShlLimbs(hi, shift)
+              his   == [his0 EXCEPT ![1] = Add(his0[1], ShlCarry(lo, shift))]
+              l1    == LimbLoop(his, ll, ShlCarry(hi, shift), dn, rv, [i \in 1..ll |-> Zero], <<0, 0>>)
+              l2    == LimbLoop(los, ll, l1[2], dn, rv, [i \in 1..ll |-> Zero], <<0, 0>>)
+          IN [r |-> Shr(l2[2], shift), path |-> <<>>]
+     ELSE LET shift == (W - (dbits % W)) % W
+              y     == ShlLimbs(SubSeq(d, 1, yc), shift)
+              xlo   == ShlLimbs(lo, shift)
+              x0    == ShlLimbs(hi, shift)
+              x     == [x0 EXCEPT ![1] = Add(x0[1], ShlCarry(lo, shift))]
+              rv    == Recip(y[yc])
+              lp    == RWLoop(x, ShlCarry(hi, shift), xlo, y, rv, ll - 1, yc, ll, <<>>)
+          IN [r |-> Shr(Val(SubSeq(lp[1], 1, yc)), shift), path |-> lp[2]]
 
 --------------------------------------------------------------------------
 (* div_rem, constant-time (div.rs:43-139): fixed trip count, `done` mask,   *)
